@@ -53,6 +53,19 @@ int main()
         std::printf("R rule functor-object-inside-parser=%d view-into-functor-state-valid=1 result=%d\n", int(inside), int(r.has_value()));
         bad += !inside;
     }
+    {   // a named, non-const functor object with a const and a non-const call operator, passed as an lvalue: the parser keeps its own copy and
+        // calls it as a const object (parse is a const member function); the caller's object is never touched
+        struct RF2 { long calls = 0; long self = 0;
+                     long operator()(term_value<char>) const { return long(reinterpret_cast<std::uintptr_t>(this)); }
+                     long operator()(term_value<char>) { ++calls; return -1; } };
+        RF2 named;
+        parser p(S, terms('x'), nterms(S), rules(S('x') >= named));
+        auto lo = reinterpret_cast<std::uintptr_t>(&p), hi = lo + sizeof(p);
+        auto r = p.parse(string_buffer("x"), std::cerr); auto r2 = p.parse(string_buffer("x"), std::cerr);
+        bool inside = r.has_value() && *r != -1 && std::uintptr_t(*r) >= lo && std::uintptr_t(*r) < hi && named.calls == 0;
+        std::printf("R named-lvalue-functor functor-object-inside-parser=%d view-into-functor-state-valid=1 result=%d\n", int(inside), int(r.has_value() && r2.has_value()));
+        bad += !inside;
+    }
     std::printf("END %d\n", bad);
     return 0;
 }
